@@ -961,4 +961,53 @@ func emitStorePoint(e *emitter, p *pkg) {
 	e.strList("saStoreGuards", guards)
 	e.strList("saServerPutSites", putSites)
 	e.nat("saServerPutNil", putNil, true)
+	emitAuthStateWriters(e, p, names)
+}
+
+// emitAuthStateWriters: WHO writes the authentication state a connection reports.
+//
+//	saAuthStateWriters  every "<function>:<field>" such that the function assigns c.peerCertificates or
+//	                    c.verifiedChains (any assignment statement with that selector on its left side)
+//	saPcCallers         the functions that call processCertsFromClient
+//
+// On the server side these fields must be written by processCertsFromClient only, which must be
+// called only on the client's Certificate message (doFullHandshake) and, once checkForResumption
+// has returned true, on the session's certificates (doResumeHandshake): checkForResumption and
+// whatever it calls only read.
+func emitAuthStateWriters(e *emitter, p *pkg, names []string) {
+	var writers, callers []string
+	for _, name := range names {
+		fd := p.funcs[name]
+		if fd.Body == nil {
+			continue
+		}
+		seen := map[string]bool{}
+		ast.Inspect(fd.Body, func(x ast.Node) bool {
+			as, ok := x.(*ast.AssignStmt)
+			if !ok {
+				return true
+			}
+			for _, l := range as.Lhs {
+				sel, ok := l.(*ast.SelectorExpr)
+				if !ok || (sel.Sel.Name != "peerCertificates" && sel.Sel.Name != "verifiedChains") {
+					continue
+				}
+				if id, ok := sel.X.(*ast.Ident); !ok || id.Name != "c" {
+					continue
+				}
+				if k := name + ":" + sel.Sel.Name; !seen[k] {
+					seen[k] = true
+					writers = append(writers, k)
+				}
+			}
+			return true
+		})
+		if name != "Conn.processCertsFromClient" && saCountCalls(fd.Body, "processCertsFromClient") > 0 {
+			callers = append(callers, name)
+		}
+	}
+	sort.Strings(writers)
+	e.comment("c.peerCertificates / c.verifiedChains are assigned in <saAuthStateWriters>; processCertsFromClient is called from <saPcCallers>")
+	e.strList("saAuthStateWriters", writers)
+	e.strList("saPcCallers", callers)
 }
